@@ -12,7 +12,7 @@ sys.path.insert(0, os.path.join(ROOT, "vlib"))
 import driver
 
 DEFAULT = dict(Node="a,b,c", InitVoters="a,b,c", Value="x,y", MaxTerm="2", MaxLog="4", MaxTimer="5", MaxAE="2",
-               MaxClient="1", MaxCrash="0", MaxHalf="0", MaxSnap="0", SnapSize="1", MaxRead="0", AsyncKinds="", MaxNet="0",
+               MaxClient="1", MaxCrash="0", MaxHalf="0", MaxSnap="0", SnapSize="1", MaxRead="0", MaxCfg="0", AsyncKinds="", MaxNet="0",
                invariants="ElectionSafety,LogMatching,NoViolation,CommittedDurable", mode="bfs", timeout="600", depth="60", workers="8")
 
 
@@ -23,7 +23,7 @@ def proj(s):
     lastt = ents[-1]["t"] if ents else lg["bterm"]
     pend = s.get("pend", [])
     return {"term": s["term"], "vote": s["vote"], "role": s["role"], "last": last, "lastt": lastt, "commit": s["commit"],
-            "pend": len(pend) if not isinstance(pend, int) else pend, "base": lg["base"], "snap": s.get("snap", {}).get("idx", 0)}
+            "pend": len(pend) if not isinstance(pend, int) else pend, "base": lg["base"], "snap": s.get("snap", {}).get("idx", 0), "cfgi": s.get("cfg", {}).get("idx", 0)}
 
 
 def main():
@@ -39,7 +39,7 @@ def main():
     setv = lambda v: "{" + ", ".join(x for x in v.split(",") if x) + "}"
     strset = lambda v: "{" + ", ".join('"%s"' % x for x in v.split(",") if x) + "}"
     cfg = "CONSTANTS\n  Node = %s\n  InitVoters = %s\n  Value = %s\n  Nil = Nil\n" % (setv(opt["Node"]), setv(opt["InitVoters"]), setv(opt["Value"]))
-    for k in ("MaxTerm", "MaxLog", "MaxTimer", "MaxAE", "MaxClient", "MaxCrash", "MaxHalf", "MaxNet", "MaxSnap", "SnapSize", "MaxRead"):
+    for k in ("MaxTerm", "MaxLog", "MaxTimer", "MaxAE", "MaxClient", "MaxCrash", "MaxHalf", "MaxNet", "MaxSnap", "SnapSize", "MaxRead", "MaxCfg"):
         cfg += "  %s = %s\n" % (k, opt[k])
     cfg += "  AsyncKinds = %s\n  W = %s\n  Gen = TRUE\n" % (strset(opt["AsyncKinds"]), strset(w))
     cfg += "SPECIFICATION Spec\nINVARIANTS %s\nCHECK_DEADLOCK FALSE\n" % " ".join(opt["invariants"].split(","))
@@ -89,7 +89,8 @@ def main():
         st["spawn"] = [msg(m) for m in post[1].get("net", []) if key(m) not in before and m["kind"] in ("rvq", "aeq")]
         steps.append(st)
     voters = [x for x in opt["InitVoters"].split(",") if x]
-    sc = {"name": "atk-" + w, "family": family, "attack": w, "violates": m.group(1), "voters": voters, "controlled": True, "auto": False,
+    extra = [x for x in opt["Node"].split(",") if x and x not in voters]
+    sc = {"name": "atk-" + w, "family": family, "attack": w, "violates": m.group(1), "voters": voters, "extra": extra, "controlled": True, "auto": False,
           "heal": True, "heal_et": 60, "spec": steps,
           "comment": "TLC counterexample (%s, %s) of Raft.tla with W = {%s}; constants %s" % (opt["mode"], m.group(1), w,
                      {k: opt[k] for k in ("Node", "InitVoters", "MaxTerm", "MaxTimer", "MaxAE", "MaxCrash", "MaxHalf", "AsyncKinds")})}
